@@ -35,27 +35,40 @@ LIMBS == 5
 B == 65536
 Max(a, b) == IF a > b THEN a ELSE b
 Min(a, b) == IF a < b THEN a ELSE b
-Rep(c, n) == IF n <= 0 THEN <<>> ELSE [i \in 1..n |-> c]
+Rep(c, n) == IF n <= 0 THEN <<>> ELSE [i \in 1..n |-> c] \o <<>>
 Pow10(n) == 10 ^ n
 
 ---------------------------------------------------------------------------
 (* magnitudes: big-endian limb sequences *)
-ZeroM == [i \in 1..LIMBS |-> 0]
-IsZeroM(m) == \A i \in 1..LIMBS : m[i] = 0
-FromNat(x) == [i \in 1..LIMBS |-> IF i = LIMBS THEN x % B ELSE IF i = LIMBS - 1 THEN x \div B ELSE 0]   \* x < 2^31
-IsSmallM(m) == (\A i \in 1..LIMBS-2 : m[i] = 0) /\ m[LIMBS-1] < 16384
-ToNat(m) == m[LIMBS-1] * B + m[LIMBS]                                                      \* if IsSmallM(m)
-P2(k) == [i \in 1..LIMBS |-> IF LIMBS - i = k \div 16 THEN 2 ^ (k % 16) ELSE 0]
+\* (explicit 5-tuples: TLC keeps [i \in S |-> e] as an unevaluated closure, which makes chains of limb operations explode)
+ZeroM == <<0, 0, 0, 0, 0>>
+IsZeroM(m) == m[1] = 0 /\ m[2] = 0 /\ m[3] = 0 /\ m[4] = 0 /\ m[5] = 0
+FromNat(x) == <<0, 0, 0, x \div B, x % B>>                                                  \* x < 2^31
+IsSmallM(m) == m[1] = 0 /\ m[2] = 0 /\ m[3] = 0 /\ m[4] < 16384
+ToNat(m) == m[4] * B + m[5]                                                                \* if IsSmallM(m)
+P2(k) == LET q == k \div 16 v == 2 ^ (k % 16) IN <<IF q = 4 THEN v ELSE 0, IF q = 3 THEN v ELSE 0, IF q = 2 THEN v ELSE 0, IF q = 1 THEN v ELSE 0, IF q = 0 THEN v ELSE 0>>
 LtM(a, b) == \E i \in 1..LIMBS : a[i] < b[i] /\ \A j \in 1..i-1 : a[j] = b[j]
 LeM(a, b) == a = b \/ LtM(a, b)
 DivSmall(m, d) ==       \* <<quotient, remainder>>, d <= 128
-  LET r[i \in 0..LIMBS] == IF i = 0 THEN 0 ELSE (r[i-1] * B + m[i]) % d
-  IN <<[i \in 1..LIMBS |-> (r[i-1] * B + m[i]) \div d], r[LIMBS]>>
+  LET t1 == m[1]               r1 == t1 % d
+      t2 == r1 * B + m[2]      r2 == t2 % d
+      t3 == r2 * B + m[3]      r3 == t3 % d
+      t4 == r3 * B + m[4]      r4 == t4 % d
+      t5 == r4 * B + m[5]
+  IN <<<<t1 \div d, t2 \div d, t3 \div d, t4 \div d, t5 \div d>>, t5 % d>>
 MulAdd(m, k, a) ==      \* m * k + a, k <= 16384, a < B (the top carry is dropped: callers stay below B^LIMBS)
-  LET s[i \in 1..LIMBS] == m[i] * k + (IF i = LIMBS THEN a ELSE s[i+1] \div B)
-  IN [i \in 1..LIMBS |-> s[i] % B]
-SubOne(m) == [i \in 1..LIMBS |-> IF \A j \in i+1..LIMBS : m[j] = 0 THEN (IF m[i] = 0 THEN B - 1 ELSE m[i] - 1) ELSE m[i]]
+  LET s5 == m[5] * k + a
+      s4 == m[4] * k + s5 \div B
+      s3 == m[3] * k + s4 \div B
+      s2 == m[2] * k + s3 \div B
+      s1 == m[1] * k + s2 \div B
+  IN <<s1 % B, s2 % B, s3 % B, s4 % B, s5 % B>>
+SubOne(m) ==            \* m - 1, m > 0
+  LET b5 == TRUE  b4 == m[5] = 0  b3 == b4 /\ m[4] = 0  b2 == b3 /\ m[3] = 0  b1 == b2 /\ m[2] = 0
+      L(x, b) == IF b THEN (IF x = 0 THEN B - 1 ELSE x - 1) ELSE x
+  IN <<L(m[1], b1), L(m[2], b2), L(m[3], b3), L(m[4], b4), L(m[5], b5)>>
 AddOne(m) == MulAdd(m, 1, 1)
+Force(s) == s \o <<>>   \* an explicit tuple instead of a closure
 RECURSIVE DigitsOf(_, _)
 DigitsOf(m, b) == LET qr == DivSmall(m, b) IN IF IsZeroM(qr[1]) THEN <<qr[2]>> ELSE Append(DigitsOf(qr[1], b), qr[2])
 RECURSIVE Horner(_, _, _)
@@ -95,8 +108,8 @@ ch_o == 111  ch_q == 113  ch_r == 114  ch_s == 115  ch_t == 116  ch_u == 117  ch
 ch_E == 69  ch_F == 70  ch_G == 71  ch_X == 88  ch_U == 85
 IsDigit(c) == c >= 48 /\ c <= 57
 DigitChar(d, upper) == IF d < 10 THEN 48 + d ELSE (IF upper THEN 55 ELSE 87) + d
-DigitChars(ds, upper) == [i \in 1..Len(ds) |-> DigitChar(ds[i], upper)]
-Upper(t) == [i \in 1..Len(t) |-> IF t[i] >= 97 /\ t[i] <= 122 THEN t[i] - 32 ELSE t[i]]
+DigitChars(ds, upper) == [i \in 1..Len(ds) |-> DigitChar(ds[i], upper)] \o <<>>
+Upper(t) == [i \in 1..Len(t) |-> IF t[i] >= 97 /\ t[i] <= 122 THEN t[i] - 32 ELSE t[i]] \o <<>>
 TNone == <<78, 111, 110, 101>>
 TTrue == <<84, 114, 117, 101>>
 TFalse == <<70, 97, 108, 115, 101>>
@@ -254,7 +267,7 @@ ReprStr(s, asciionly) ==
   LET hasS == \E i \in 1..Len(s) : s[i] = cSq
       hasD == \E i \in 1..Len(s) : s[i] = cDq
       q == IF hasS /\ ~hasD THEN cDq ELSE cSq
-  IN <<q>> \o Flat([i \in 1..Len(s) |-> EscChar(s[i], q, asciionly)]) \o <<q>>
+  IN <<q>> \o Flat([i \in 1..Len(s) |-> EscChar(s[i], q, asciionly)] \o <<>>) \o <<q>>
 IntStr(v) == (IF v.neg THEN <<cMinus>> ELSE <<>>) \o DigitChars(DigitsOf(v.mag, 10), FALSE)
 Str(v) == CASE v.k = "int" -> IntStr(v) [] v.k = "bool" -> (IF v.b THEN TTrue ELSE TFalse) [] v.k = "str" -> v.cps
             [] v.k = "none" -> TNone [] v.k = "float" -> FloatStr(v)
@@ -395,7 +408,7 @@ CIntText(T, v, ft, width, pad) ==
 \* __Pyx_uchar_PyUnicode_From_T (format type 'c')
 COrd(T, v, width, pad) ==
   LET neg == T.signed /\ v.neg
-      highbits == ~IsZeroM([i \in 1..LIMBS |-> IF i <= LIMBS - 2 THEN v.mag[i] ELSE IF i = LIMBS - 1 THEN v.mag[i] - (v.mag[i] % 32) ELSE 0])   \* value & ~0x1fffff
+      highbits == v.mag[1] # 0 \/ v.mag[2] # 0 \/ v.mag[3] # 0 \/ v.mag[4] >= 32      \* value & ~0x1fffff
       small == IsSmallM(v.mag) /\ ToNat(v.mag) <= 1114111
   IN IF neg THEN OverflowError
      ELSE IF ~(T.bits <= 16 \/ highbits \/ small) THEN OverflowError
@@ -457,7 +470,7 @@ KindMaxChar(k) == IF k = 0 THEN 127 ELSE IF k = 1 THEN 255 ELSE IF k <= 3 THEN 6
 ---------------------------------------------------------------------------
 (* CASES *)
 \* ---- operand pools
-Lim(hi) == [i \in 1..LIMBS |-> IF i <= LIMBS - Len(hi) THEN 0 ELSE hi[i - (LIMBS - Len(hi))]]
+Lim(hi) == <<0, 0, hi[1], hi[2], hi[3]>>     \* three low limbs given
 SmallCands == IF Level = 1 THEN {-129, -128, -100, -99, -10, -9, -8, -1, 0, 1, 7, 8, 9, 10, 63, 64, 99, 100, 127, 128, 255, 256, 1000, 32767, 32768, 65535, 65536, -32768}
               ELSE {-32769, -32768, -1000, -999, -129, -128, -127, -100, -99, -65, -64, -63, -10, -9, -8, -7, -1, 0, 1, 7, 8, 9, 10, 15, 16, 63, 64, 65, 99, 100, 101,
                     127, 128, 255, 256, 511, 512, 999, 1000, 4095, 4096, 9999, 10000, 32767, 32768, 65535, 65536, 99999, 100000, 1048575, 1048576}
@@ -575,7 +588,7 @@ JoinIdx == {ix \in [1..3 -> 1..NPP] : (JHash(ix) + Seed) % (IF Level = 1 THEN 6 
            \cup {ix \in [1..4 -> 1..NPP] : (JHash(ix) + Seed) % (IF Level = 1 THEN 150 ELSE 12) = 0}
            \cup {ix \in [1..5 -> 1..NPP] : (JHash(ix) + Seed) % (IF Level = 1 THEN 4000 ELSE 200) = 0}
 JoinCases == {[site |-> "join", s |-> <<>>, conv |-> 0, cls |-> "join", pre |-> <<>>, prectext |-> <<>>, ty |-> 0, fn |-> "",
-               parts |-> [i \in 1..Len(ix) |-> PartPool[ix[i]]]] : ix \in JoinIdx}
+               parts |-> [i \in 1..Len(ix) |-> PartPool[ix[i]]] \o <<>>] : ix \in JoinIdx}
 JoinA == {I(x) : x \in {65, 233, 8364, 128512, 55296, -7, 1114112}}
 JoinB == {VStr(<<113>>), VStr(<<233, 8364>>), VStr(<<128512>>), I(5), VNone, VStr(<<>>)}
 JoinOps == {[car |-> "join", ti |-> 5, v |-> a, w |-> b] : a \in JoinA, b \in JoinB}
@@ -585,7 +598,7 @@ RECURSIVE JoinOutcome(_)
 JoinOutcome(outs) == IF outs = <<>> THEN Ok(<<>>)      \* the first failing part decides; otherwise concatenation
                      ELSE IF Head(outs).e # 0 THEN Head(outs)
                      ELSE LET r == JoinOutcome(Tail(outs)) IN IF r.e # 0 THEN r ELSE Ok(Head(outs).t \o r.t)
-JoinRef(c, a, b) == JoinOutcome([i \in 1..Len(c.parts) |-> PartRef(c.parts[i], a, b)])
+JoinRef(c, a, b) == JoinOutcome([i \in 1..Len(c.parts) |-> PartRef(c.parts[i], a, b)] \o <<>>)
 \* what JoinedStrNode computes before calling __Pyx_PyUnicode_Join: <<result_ulength, kind>> from the formatted parts
 JoinPre(c, outs) ==
   LET n == Len(c.parts)
@@ -594,10 +607,10 @@ JoinPre(c, outs) ==
       sum[i \in 0..n] == IF i = 0 THEN 0 ELSE sum[i-1] + (IF c.parts[i].lit THEN Len(c.parts[i].t)
                                                          ELSE IF isfirst(i) THEN Len(outs[i].t) * reps(i) ELSE 0)
       asciiAssumed(i) == c.parts[i].op = 1 /\ ImplCPath("cint", c.parts[i].s) /\ c.parts[i].s # <<ch_c>>    \* c_format_spec != 'c' and C numeric
-      kinds == [i \in 1..n |-> IF c.parts[i].lit THEN KindOf(c.parts[i].t) ELSE IF asciiAssumed(i) \/ ~isfirst(i) THEN 0 ELSE KindOf(outs[i].t)]
+      kinds == [i \in 1..n |-> IF c.parts[i].lit THEN KindOf(c.parts[i].t) ELSE IF asciiAssumed(i) \/ ~isfirst(i) THEN 0 ELSE KindOf(outs[i].t)] \o <<>>
   IN <<sum[n], OrAll(kinds)>>
 JoinImpl(c, a, b) ==
-  LET outs == [i \in 1..Len(c.parts) |-> PartImpl(c.parts[i], a, b)]
+  LET outs == [i \in 1..Len(c.parts) |-> PartImpl(c.parts[i], a, b)] \o <<>>
       r == JoinOutcome(outs)
   IN IF r.e # 0 THEN r
      ELSE LET pre == JoinPre(c, outs) IN
@@ -663,7 +676,7 @@ DigitLaw == Done => \A i \in Cells : IntCell(i) =>
                   nd == Len(DigitsOf(ops[i].v.mag, base))
                   signlen == IF ops[i].v.neg \/ ps.sign \in {cPlus, cSp} THEN 1 ELSE 0
               IN (base # 0 /\ ~ps.alt /\ ps.fill \in {cSp, c0, 42, 233, 128512, cLt}) =>
-                   /\ Horner([j \in 1..Len(ds) |-> val(ds[j])], base, ZeroM) = ops[i].v.mag      \* the digits denote |v| (leading zeros are harmless)
+                   /\ Horner([j \in 1..Len(ds) |-> val(ds[j])] \o <<>>, base, ZeroM) = ops[i].v.mag      \* the digits denote |v| (leading zeros are harmless)
                    /\ ((\E j \in 1..Len(t) : t[j] = cMinus) <=> ops[i].v.neg)
                    /\ Len(t) >= ps.width
                    /\ (ps.grp = 0 => Len(t) = Max(ps.width, nd + signlen))
